@@ -262,19 +262,12 @@ theorem readonly_never_assignable (s : St) (ops : List Op) (p : PId) (q : Param)
 
 /-- **C14 (read-only, class level).**  A class-level assignment to a parameter whose Parameter object
 is read-only raises TypeError — on the declaring class and on a subclass (where the copy-on-write
-copy keeps flag and default) — and no instance and no existing Parameter object changes. -/
+copy is removed again) — and nothing at all changes. -/
 theorem readonly_class_assignment (s : St) (c : CId) (n : Name) (v : Obj) (p : PId) (o : CId)
     (q : Param) (k : Cls) (hd : descriptor s c n = some (p, o)) (hq : s.heap[p]? = some q)
     (hk : s.classes[c]? = some k) (hr : q.readonly = true) :
-    (step s (.clsSet c n v)).2 = .typeError ∧ (step s (.clsSet c n v)).1.insts = s.insts ∧
-    (∀ (p' : PId) (q' : Param), s.heap[p']? = some q' → (step s (.clsSet c n v)).1.heap[p']? = some q') := by
-  refine ⟨?_, clsSet_insts s c n v, ?_⟩
-  · simp only [step, hd, hq, hk, hr, if_true]
-  · intro p' q' h'
-    simp only [step, hd, hq, hk, hr, if_true]
-    by_cases e : o = c
-    · simp only [e, if_true]; exact h'
-    · simp only [e, if_false]; exact append_get h'
+    step s (.clsSet c n v) = (s, .typeError) := by
+  simp only [step, hd, hq, hk, hr, if_true]
 
 /-- a constructor keyword naming a read-only parameter is refused: TypeError, no instance is created -/
 theorem readonly_keyword_refused (s : St) (hwf : WF s) (c : CId) (kw : List (Name × Obj))
